@@ -50,7 +50,7 @@ extern "C" int LLVMFuzzerTestOneInput(const uint8_t *data, size_t size)
       }
       int p = fdp.ConsumeIntegralInRange<int>(0, 4);
       for (int i = 0; i < p; ++i)
-        c.viewCounts.push_back(fdp.ConsumeIntegralInRange<int>(0, 400));
+        c.viewCounts.push_back(fdp.ConsumeIntegralInRange<int>(0, 1200));
       c15::runSeq(c, ctx);
       FS.label("sequence");
     }
